@@ -278,6 +278,17 @@ def run_tree(case, ctx, res):
                 os.symlink(str(shared / "common" / "dep5-shared"), root / ".reuse" / "dep5")
             else:
                 (root / ".reuse" / "dep5").write_text(text)
+        if case["k"] % 6 == 1:
+            # a Git work tree whose ignored build directory holds somebody else's checkout, REUSE.toml included: not the project's
+            from .. import trees as _t0
+
+            _t0.git_init(root)
+            (root / ".git" / "info" / "exclude").write_text("build/\n")
+            (root / "build" / "_deps" / "libfoo").mkdir(parents=True)
+            (root / "build" / "_deps" / "libfoo" / "REUSE.toml").write_text('version = 1\n[[annotations]]\npath = "**"\nSPDX-FileCopyrightText = "2001 Foo"\n'
+                                                                             'SPDX-License-Identifier = "Zlib"\n')
+            (root / "build" / "_deps" / "libfoo" / "foo.c").write_text("int foo;\n")
+            res.cell("git:ignored-directory-with-a-foreign-REUSE.toml")
         shared_before = sorted(os.listdir(shared / "common")) if linked else None
         r1 = run_cli(["--no-multiprocessing", "--root", str(root), "lint", "--json"], cwd=str(root))
         if r1.escaped or r1.exit_code == 2:
